@@ -239,6 +239,11 @@ class ComputeTypeVisitor(Visitor.DefaultVisitor):
         """Computes the function type and processes all statements."""
         assert isinstance(func, ast.Function)
 
+        if func.GetBody() is None:
+            # Only definitions can be lowered; there is no support for
+            # resolving a bare declaration against a definition elsewhere
+            Errors.ERROR_FUNCTION_WITHOUT_BODY.Raise(func.GetName())
+
         scope = types.Scope(ctx[-1])
         ctx.append(scope)
         for name, argType in func.GetType().GetArgumentTypes().items():
